@@ -31,14 +31,32 @@ def decide(ob, rec):
         rec.seen("node_classes", "cycle")
 
 
-def compiled_conservation(M, rec, rng, n_nets):
+def compiled_conservation(M, rec, rng, n_nets, mon=None):
     """Balance from the inputs and outputs (x+, q, q_o) of to_function(more_out=True)."""
+    import casadi as cs
+
+    import sym_metanet.engines.casadi as EC
+
     NE, CE = drive.engines(M)
+
+    # a user-defined engine with its OWN link-flow primitive (flows counted in passenger-car equivalents and never negative):
+    # whatever a link says leaves it, the node passes on
+    class LinksPCE(EC.LinksEngine):
+        @staticmethod
+        def get_flow(rho, v, lanes):
+            return 0.9 * cs.fmax(0, rho * v * lanes)
+
+    class EnginePCE(EC.Engine):
+        @property
+        def links(self):
+            return LinksPCE
+
     g = G.NetGen(rng)
     sh = W.shapes_cycle()
-    for _ in range(n_nets):
+    for it_ in range(n_nets):
         shp, desc, built = W.make_net(M, g, next(sh), rng)
         st = rng.choice(("SX", "MX"))
+        own_flow = it_ % 4 == 1 and not any(l.get("user_cap") is not None or l.get("user_reorder") for l in desc["links"])
         pars = g.pars()
         # numeric parameters, or some link / ramp / model parameters symbolic and declared as function
         # parameters (named '<attribute>_<element>' or by the bare attribute name), evaluated at other
@@ -48,7 +66,16 @@ def compiled_conservation(M, rec, rng, n_nets):
             cand = CC.candidate_params(desc, pars)
             keys = rng.sample(cand, rng.randint(1, min(5, len(cand))))
         try:
-            case = CC.CompileCase(M, rng, desc, pars, st, keys, own_symbols=(rng.random() < 0.5))
+            # (the in-situ step monitor knows the stock link flow only: this case is decided from the function's outputs)
+            if own_flow and mon is not None:
+                mon.enabled = False
+            try:
+                case = CC.CompileCase(M, rng, desc, pars, st, keys, own_symbols=(rng.random() < 0.5), engine_factory=(EnginePCE if own_flow else None))
+            finally:
+                if mon is not None:
+                    mon.enabled = True
+            if own_flow:
+                rec.count("compiled_cases_with_a_user_engine_that_has_its_own_link_flow")
         except Exception:
             rec.count("compiled_step_exceptions")
             continue
@@ -202,14 +229,14 @@ def run(M, rec, tier, seed, k, n):
         if tier == "quick":
             W.numpy_steps(M, rec, rng, 500, draws=3, before_case=before)
             W.symbolic_steps(M, rec, rng, symvals, 40, points=2, before_case=before)
-            compiled_conservation(M, rec, rng, 60)
+            compiled_conservation(M, rec, rng, 60, mon)
             W.closed_loop(M, rec, rng, 7, 90, on_step=on_step)
             W.inplace_pairs(M, rec, rng, 40, before_case=before)
             W.small_valid_steps(M, rec, rng, 2, before_case=before, seed=seed)
         else:
             W.numpy_steps(M, rec, rng, 6000, draws=3, before_case=before)
             W.symbolic_steps(M, rec, rng, symvals, 250, points=3, before_case=before)
-            compiled_conservation(M, rec, rng, 500)
+            compiled_conservation(M, rec, rng, 500, mon)
             W.closed_loop(M, rec, rng, 14, 180, on_step=on_step)
             W.inplace_pairs(M, rec, rng, 300, before_case=before)
             W.small_valid_steps(M, rec, rng, 3, k, n, before_case=before, seed=seed)
